@@ -101,13 +101,41 @@ def run(tier, seed, replay=None):
             chk.cov["controls_run"], chk.cov["controls_rejected"] = 2, rej
             if rej != 2:
                 raise ModelError("negative controls: %d of 2 rejected %r" % (rej, cbad))
-    chk.cov["traces_validated_against_impl"] = total
-    chk.cov["evaluations"] = total
+    # ---- from the pair rule to the forces of a whole contact phase: contact_model::run on tissues (fresh and fragmented cells, cell
+    # identifiers equal to / rotated against / unrelated to list positions) must produce exactly the sum of the pair rule over all
+    # node-triangle pairs of DIFFERENT cells -- no pair of one cell with itself, no pair skipped -- and forces that add up to zero.
+    # With the pair rule validated above, the forces of a run are then reciprocal, short-ranged and separating.
+    nrun = 0
+    if not replay:
+        import c06
+        allt = c06.cases(tier, seed)
+        tissues = allt if tier == "thorough" else [c for j, c in enumerate(allt) if j % 4 in (1, 2)]     # (the identifier variants cycle with period 3)
+        for i, c in enumerate(tissues):
+            c["k"] = i + 1
+        for variant in builds:
+            bdir = vlib.build(variant, ["contact_driver"])
+            cp, op = os.path.join(work, "tis_%s.ndjson" % variant), os.path.join(work, "tisobs_%s.ndjson" % variant)
+            vlib.write_ndjson(cp, tissues)
+            rc, out = vlib.run([os.path.join(bdir, "contact_driver"), "tissue", cp, op], timeout=3000, env={"OMP_NUM_THREADS": "4"})
+            obs = vlib.read_ndjson(op) if os.path.exists(op) else []
+            if rc != 0 or len(obs) != len(tissues):
+                bad = tissues[len(obs)] if len(obs) < len(tissues) else None
+                chk.violation("crash:run:%s:%s" % (variant, json.dumps(bad)), "contact_model::run (%s) terminated with status %d on tissue %s" % (variant, rc, json.dumps(bad)), {"variant": variant, "tissue": bad})
+                continue
+            for c, o in zip(tissues, obs):
+                nrun += 1
+                if not o["equal"] or not o["net_zero"]:
+                    chk.violation("impl:run:%s:%s" % (variant, json.dumps({k: v for k, v in c.items() if k != "k"})),
+                                  "contact model %s: the forces of a whole contact phase on tissue %s are not the sum of the pair rule over the node-triangle pairs of different cells (%s; net zero: %s)"
+                                  % (variant, json.dumps(c), o["rel"], o["net_zero"]), {"variant": variant, "tissue": c})
+        chk.cov["whole_phase_runs"] = nrun
+    chk.cov["traces_validated_against_impl"] = total + nrun
+    chk.cov["evaluations"] = total + nrun
     chk.cov["distinct_nontrivial"] = len(states)
     chk.cov["decisions_in_spec"] = decs
     chk.cov["rule"] = "one case per state of ContactRuleMC (node position in the lattice box, 4 triangles, 24 type pairs, 2 cut-offs), replayed per contact model at two units and three offsets"
-    chk.assumptions += ["pairs of two epithelial cells can end in a coupling (order dependent) and are covered by C08 / C03, not here; same-cell exclusion is part of the models' loops and is "
-                        "covered by the whole-run comparison of C06", "cut-offs are integer multiples of the lattice unit (squared cut-offs exact); the spring model's adhesion amplitude "
+    chk.assumptions += ["pairs of two epithelial cells can end in a coupling (order dependent) and are covered by C08 / C03, not here; same-cell exclusion and pair selection are part of the models' loops and are "
+                        "covered by the whole-phase comparison (shared with C06)", "cut-offs are integer multiples of the lattice unit (squared cut-offs exact); the spring model's adhesion amplitude "
                         "involves sqrt(d2): only reciprocity, range and direction are checked for it"]
     shutil.rmtree(work, ignore_errors=True)
     return chk.finish()
